@@ -30,10 +30,14 @@ def interpreter(secure=False, legacy=True, fresh=False):
 
 
 def repo_frame(tb):
+    """Innermost frame inside the repository's sources, as file:qualname."""
     best = "?"
-    for fs in traceback.extract_tb(tb):
-        if fs.filename.startswith(SRC):
-            best = f"{os.path.basename(fs.filename)}:{fs.name}"
+    while tb is not None:
+        code = tb.tb_frame.f_code
+        if code.co_filename.startswith(SRC):
+            best = f"{os.path.basename(code.co_filename)}:" \
+                   f"{getattr(code, 'co_qualname', code.co_name)}"
+        tb = tb.tb_next
     return best
 
 
